@@ -201,7 +201,7 @@ func runC16(c *run.Ctx) {
 	// 3. random programs over environments with present / absent optionals
 	// nested in lists, maps and objects: raw environments and host data
 	opt := ref.GenOpt{MaxDepth: 5, PFail: 0.03, PSugar: 0.6, PBoundary: 0.1, PGroup: 0.03}
-	n := c.Pick(3000, 80000)
+	n := c.Pick(3000, 300000)
 	for i := 0; i < n; i++ {
 		if !c.Mine(i) {
 			continue
@@ -317,7 +317,7 @@ type c16Rec struct {
 // untaggedPointers: nil-ness of an untagged pointer decides between T and
 // maybe[T]; absence must never be read as a T.
 func untaggedPointers(c *run.Ctx) {
-	for i := 0; i < c.Pick(400, 6000); i++ {
+	for i := 0; i < c.Pick(400, 40000); i++ {
 		if !c.Mine(i) {
 			continue
 		}
